@@ -97,6 +97,82 @@ def expect_state(dims):
     return out
 
 
+def fork_and_construct_layer(ck, n_cases):
+    """(1) an object derived from another one (las[mask], deepcopy of the header, the writer's private copy) is independent:
+    adding or removing an extra dimension on either leaves the other consistent and unchanged; (2) a header / LasData built
+    from a PointFormat that already carries extra dimensions describes them in its extra-bytes VLR and in the file"""
+    import copy
+    import laspy
+    for ci in range(n_cases):
+        minor, fmt = ck.rng.choice(fio.PAIRS)
+        n = ck.rng.choice([2, 4])
+        las = fio.make_las(ck.rng, minor, fmt, n)
+        used = set()
+        first = [gen_dim(ck.rng, used) for _ in range(ck.rng.choice([0, 1, 2]))]
+        if first:
+            las.add_extra_dims([d.params() for d in first])
+        how = ck.rng.choice(["mask", "slice", "deepcopy_header"])
+        if how == "mask":
+            other = las[np.ones(n, dtype=bool)]
+        elif how == "slice":
+            other = las[0:n]
+        else:
+            other = laspy.LasData(copy.deepcopy(las.header), las.points.copy() if hasattr(las.points, "copy") else las.points)
+        state_las = (dims_state(las), las.points.array.dtype.itemsize, las.header.point_format.size, n_eb_vlrs(las), eb_payload(las))
+        new = gen_dim(ck.rng, used)
+        inp = {"kind": "fork", "minor": minor, "fmt": fmt, "how": how, "first": [d.name for d in first], "added_on_the_derived_object": new.name}
+        ck.case(("fork", minor, fmt, how, tuple(d.name for d in first), new.name), nontrivial=True)
+        ck.count("fork:" + how)
+        try:
+            other.add_extra_dim(new.params())
+            if first and ck.rng.random() < 0.5:
+                other.remove_extra_dim(first[0].name)
+                inp["removed_on_the_derived_object"] = first[0].name
+        except Exception as e:
+            ck.fail(f"editing the extra dimensions of an object derived by {how} raised {type(e).__name__}: {e}", inp)
+            continue
+        now = (dims_state(las), las.points.array.dtype.itemsize, las.header.point_format.size, n_eb_vlrs(las), eb_payload(las))
+        if now != state_las:
+            ck.fail(f"editing the extra dimensions of an object derived by {how} changed the object it was derived from: "
+                    f"extra dimensions {[d[0] for d in now[0]]} (were {[d[0] for d in state_las[0]]}), record length {now[1]}, format size {now[2]}", inp)
+        if las.header.point_format.size != las.points.array.dtype.itemsize:
+            ck.fail(f"after editing a derived object the original's point format size {las.header.point_format.size} != record length {las.points.array.dtype.itemsize}", inp)
+    # built from a PointFormat that already has extra dimensions
+    for ci in range(n_cases):
+        minor, fmt = ck.rng.choice(fio.PAIRS)
+        used = set()
+        dims = [gen_dim(ck.rng, used) for _ in range(ck.rng.choice([1, 2]))]
+        pf = laspy.PointFormat(fmt)
+        for d in dims:
+            pf.add_extra_dimension(d.params())
+        how = ck.rng.choice(["create", "header_then_lasdata", "open_w"])
+        inp = {"kind": "constructed", "minor": minor, "fmt": fmt, "how": how, "dims": [(d.name, d.type_str()) for d in dims]}
+        ck.case(("constructed", minor, fmt, how, tuple(inp["dims"])), nontrivial=True)
+        ck.count("constructed:" + how)
+        try:
+            buf = io.BytesIO()
+            if how == "create":
+                las = laspy.create(point_format=pf, file_version=f"1.{minor}")
+                las.write(buf)
+            elif how == "header_then_lasdata":
+                las = laspy.LasData(laspy.LasHeader(point_format=pf, version=f"1.{minor}"))
+                las.write(buf)
+            else:
+                hdr = laspy.LasHeader(point_format=pf, version=f"1.{minor}")
+                with laspy.open(buf, mode="w", header=hdr, closefd=False) as w:
+                    w.write_points(laspy.ScaleAwarePointRecord.zeros(2, header=hdr))
+                las = laspy.LasData(hdr)
+            back = laspy.read(io.BytesIO(buf.getvalue()))
+        except Exception as e:
+            ck.fail(f"building from a point format with extra dimensions ({how}) raised {type(e).__name__}: {e}", inp)
+            continue
+        if n_eb_vlrs(las) != 1 or dims_state(las) != expect_state(dims):
+            ck.fail(f"object built from a point format with extra dimensions ({how}): {n_eb_vlrs(las)} extra-bytes VLRs, dimensions {dims_state(las)}", inp)
+        if dims_state(back) != expect_state(dims) or n_eb_vlrs(back) != 1:
+            ck.fail(f"file written from a point format with extra dimensions ({how}) reads back with {[d[0] for d in dims_state(back)]} "
+                    f"({n_eb_vlrs(back)} extra-bytes VLRs), expected {[d.name for d in dims]}", inp)
+
+
 def ordered_removal_layer(ck):
     """fixed cases, run on every seed: three or four extra dimensions of different widths, every pair and triple of them
     removed in every order of the names; the dimensions kept must keep their values and the record its length"""
@@ -292,6 +368,7 @@ def run(ck):
         if len(ck.samples) < 3:
             ck.sample({"fmt": fmt, "n": n, "history": hist})
     ordered_removal_layer(ck)
+    fork_and_construct_layer(ck, 25 if q else 400)
     out = ck.driver(lines)
     bad = None
     if out is None or len(out) != len(lines):
